@@ -242,6 +242,25 @@ def c06(tier='quick', seed=0):
             rules_text['default'] = rng.choice(['role:r0', '@', '!', 'role:r1 or role:r2'])
             default = 'default'
         e = mk_enforcer(rules=policy.Rules.from_dict(rules_text, default), default_rule=default or 'nodefaultrule')
+
+        # the metamorphic form of the property: every reference textually replaced by the parenthesised text of its
+        # definition (undefined names by the default's text if usable, else `!`), parsed by the library itself
+        def inline(text, depth=0):
+            out = []
+            for w in text.replace('(', ' ( ').replace(')', ' ) ').split():
+                if w.startswith('rule:') and depth < 12:
+                    ref = w[5:]
+                    if ref in rules_text:
+                        out.append('( ' + inline(rules_text[ref], depth + 1) + ' )')
+                    elif default is not None and default in rules_text and ref != default:
+                        out.append('( ' + inline(rules_text[default], depth + 1) + ' )')
+                    else:
+                        out.append('!')
+                else:
+                    out.append(w)
+            return ' '.join(out)
+        inlined_text = {nm: inline(rules_text[nm]) for nm in use}
+        e_inl = mk_enforcer(rules=policy.Rules.from_dict(inlined_text), default_rule='nodefaultrule')
         for nm in use + ['undefined']:
             for roles in itertools.chain.from_iterable(itertools.combinations(['r0', 'r1', 'r2'], j) for j in range(4)):
                 want = ref_decide(rules_text, default, nm, roles)
@@ -250,6 +269,12 @@ def c06(tier='quick', seed=0):
                 if got[0] != 'ret' or bool(got[1]) != want:
                     bad = 'rules=%r default=%r enforce(%r, roles=%r) gave %r, inlined definitions give %r' % (
                         rules_text, default, nm, list(roles), got[1:], want)
+                elif nm in inlined_text:
+                    got2 = outcome(e_inl.enforce, nm, {}, {'roles': list(roles)})
+                    if got2[0] != 'ret' or bool(got2[1]) != want:
+                        bad = 'rules=%r: %r with its references replaced by their parenthesised definitions (%r) decided %r ' \
+                              'for roles %r, the reference form decides %r' % (rules_text, nm, inlined_text[nm], got2[1:],
+                                                                               list(roles), want)
                 R.case((tuple(sorted(rules_text.items())), nm, roles), bad,
                        sample={'rules': rules_text, 'query': nm, 'roles': list(roles), 'decision': want})
                 if R.full:
@@ -371,6 +396,40 @@ def c07(tier='quick', seed=0):
                                                     len(args), len(kwargs)), bad)
                             if R.full:
                                 return R.d
+        # scope handling is part of enforce(): with enforcement off (and on) the two do_raise modes agree, through
+        # enforce and through authorize, for a name and for a check object carrying scope types
+        import warnings
+        for enforce_scope in (False, True):
+            for allow in (True, False):
+                for token in ({'project_id': 'p1'}, {'domain_id': 'd1'}, {'system_scope': 'all'}):
+                    conf = new_conf(enforce_scope=enforce_scope)
+                    e = mk_enforcer(conf=conf)
+                    cs = '@' if allow else '!'
+                    e.register_default(policy.RuleDefault('sys:p', cs, scope_types=['system']))
+                    e.set_rules(policy.Rules.from_dict({'sys:p': cs}), use_conf=False)
+                    obj = policy._parser.parse_rule(cs)
+                    obj.scope_types = ['system']
+                    creds = dict({'roles': ['r']}, **token)
+                    mismatch = 'system_scope' not in token
+                    for label, call, rule in (('enforce', e.enforce, 'sys:p'), ('authorize', e.authorize, 'sys:p'),
+                                              ('enforce(check object)', e.enforce, obj)):
+                        with warnings.catch_warnings():
+                            warnings.simplefilter('ignore')
+                            off = outcome(call, rule, {}, dict(creds), False)
+                            on = outcome(call, rule, {}, dict(creds), True)
+                        if mismatch and enforce_scope:
+                            want_off, want_on = ('ret', False), ('exc', 'InvalidScope')
+                        elif allow:
+                            want_off, want_on = ('ret', True), ('ret', True)
+                        else:
+                            want_off, want_on = ('ret', False), ('exc', 'PolicyNotAuthorized')
+                        g_off = (off[0], bool(off[1]) if off[0] == 'ret' else off[1])
+                        g_on = (on[0], bool(on[1]) if on[0] == 'ret' else on[1])
+                        bad = None
+                        if (g_off, g_on) != (want_off, want_on):
+                            bad = ('%s on a system-only policy (check %s) with token %r, enforce_scope=%s: do_raise off gave %r, '
+                                   'on gave %r; expected %r / %r' % (label, cs, token, enforce_scope, g_off, g_on, want_off, want_on))
+                        R.case(('scope-modes', enforce_scope, allow, tuple(token), label), bad)
     finally:
         logging.disable(logging.CRITICAL)
         lg.setLevel(old_level)
@@ -457,6 +516,40 @@ def c08(tier='quick', seed=0):
                                                 override, as_check, rep), bad)
                                         if R.full:
                                             return R.d
+    # the option is read when the decision is taken: flipping it on a long-lived enforcer (one that reads its rules from
+    # configuration files, one that was given its rules through set_rules, one built with use_conf=False) takes effect
+    import warnings
+    for how in ('conf', 'set_rules', 'no_conf'):
+        for first in (True, False):
+            for allow in (True, False):
+                for do_raise in (False, True):
+                    conf = new_conf(enforce_scope=first)
+                    e = policy.Enforcer(conf, use_conf=(how != 'no_conf'))
+                    check_str = '@' if allow else '!'
+                    e.register_default(policy.RuleDefault('p:x', check_str, scope_types=['system']))
+                    if how == 'set_rules':
+                        e.set_rules(policy.Rules.from_dict({'p:x': check_str}))
+                    elif how == 'no_conf':
+                        e.set_rules(policy.Rules.from_dict({'p:x': check_str}), use_conf=False)
+                    creds = {'roles': ['r'], 'project_id': 'p1'}
+                    with warnings.catch_warnings():
+                        warnings.simplefilter('ignore')
+                        outcome(e.enforce, 'p:x', {}, dict(creds), do_raise)
+                        conf.set_override('enforce_scope', not first, group='oslo_policy')
+                        got = outcome(e.enforce, 'p:x', {}, dict(creds), do_raise)
+                    now = not first
+                    if now:
+                        want = ('exc', 'InvalidScope') if do_raise else ('ret', False)
+                    elif allow:
+                        want = ('ret', True)
+                    else:
+                        want = ('exc', 'PolicyNotAuthorized') if do_raise else ('ret', False)
+                    g = (got[0], bool(got[1]) if got[0] == 'ret' else got[1])
+                    bad = None
+                    if g != want:
+                        bad = ('enforcer (%s) created with enforce_scope=%s, option then set to %s: project token on a system-only '
+                               'policy, allow=%s do_raise=%s: got %r expected %r' % (how, first, now, allow, do_raise, g, want))
+                    R.case(('option-flip', how, first, allow, do_raise), bad)
     return R.d
 
 
@@ -489,12 +582,29 @@ def c14(tier='quick', seed=0):
         e = mk_enforcer(rules=policy.Rules.from_dict(rules_text))
         creds = {'roles': rng.choice([[], ['x'], ['X', 'y']]), 'a': rng.choice(jsons)}
         target = rng.choice([{}, {'t': 'x'}, {'t': 1}, {'t': None}, {'t': ['x']}, {'t': HUGE}])
-        for do_raise in (False, True):
-            got = outcome(e.enforce, 'p', target, dict(creds), do_raise)
-            bad = None
-            if got[0] == 'exc' and got[1] not in documented:
-                bad = 'rule %r with creds %s target %s raised %s: %s' % (body, safe(creds), safe(target), got[1], got[2])
-            R.case((body, safe(creds), safe(target), do_raise), bad, sample={'rule': body, 'creds': safe(creds)})
+        # every fourth rule set is enforced with debug logging switched on (the call then also formats its arguments)
+        import logging
+        lg = logging.getLogger('oslo_policy.policy')
+        debug = it % 4 == 0
+        old_level = lg.level
+        if debug:
+            logging.disable(logging.NOTSET)
+            lg.setLevel(logging.DEBUG)
+            lg.propagate = False
+            if not lg.handlers:
+                lg.addHandler(logging.NullHandler())
+        try:
+            for do_raise in (False, True):
+                got = outcome(e.enforce, 'p', target, dict(creds), do_raise)
+                bad = None
+                if got[0] == 'exc' and got[1] not in documented:
+                    bad = 'rule %r with creds %s target %s (debug logging %s) raised %s: %s' % (
+                        body, safe(creds), safe(target), 'on' if debug else 'off', got[1], got[2])
+                R.case((body, safe(creds), safe(target), do_raise, debug), bad, sample={'rule': body, 'creds': safe(creds)})
+        finally:
+            if debug:
+                logging.disable(logging.CRITICAL)
+                lg.setLevel(old_level)
         if R.full:
             break
     return R.d
